@@ -1309,7 +1309,7 @@ func (e *Engine) modCall(c *FnCtx, info *types.Info, call *ast.CallExpr, out map
 				callee = sel.Obj().(*types.Func)
 				if rt := sel.Recv(); rt != nil {
 					if _, isI := c.subst(rt).Underlying().(*types.Interface); isI {
-						for k, v := range e.modOfMethodName(c, callee) {
+						for k, v := range e.modOfMethodNameSeen(c, callee, seen) {
 							out[k] = v
 						}
 						return
@@ -1359,8 +1359,22 @@ func (e *Engine) modCall(c *FnCtx, info *types.Info, call *ast.CallExpr, out map
 
 // modOfMethodName: union of the mod-sets of all repo methods with this name (CHA by name).
 func (e *Engine) modOfMethodName(c *FnCtx, m *types.Func) map[string]types.Type {
+	return e.modOfMethodNameSeen(c, m, map[*types.Func]bool{})
+}
+
+func (e *Engine) modOfMethodNameSeen(c *FnCtx, m *types.Func, seen map[*types.Func]bool) map[string]types.Type {
 	out := map[string]types.Type{}
-	seen := map[*types.Func]bool{}
+	if ct := e.Contracts[FuncKey(m)]; ct != nil && ct.AssignsGiven {
+		// the interface method itself carries a frame contract
+		for _, a := range ct.Assigns {
+			e.modOfAssignsClause(c, nil, a.Expr, out)
+		}
+		return out
+	}
+	if seen[m] {
+		return out
+	}
+	seen[m] = true
 	var keys []string
 	for k, fi := range e.Funcs {
 		if fi.Obj != nil && fi.Obj.Name() == m.Name() && fi.Sig.Recv() != nil {
